@@ -419,6 +419,22 @@ func (ctx *RenderContext) GetMacro(name string) (interface{}, bool) {
 	return nil, false
 }
 
+// hasVariable reports whether name is bound in this context, in the globals or
+// in an enclosing context (a variable bound to nil is bound)
+func (ctx *RenderContext) hasVariable(name string) bool {
+	for c := ctx; c != nil; c = c.parent {
+		if _, ok := c.context[name]; ok {
+			return true
+		}
+		if c.env != nil {
+			if _, ok := c.env.globals[name]; ok {
+				return true
+			}
+		}
+	}
+	return false
+}
+
 // GetMacros returns the macros map
 func (ctx *RenderContext) GetMacros() map[string]Node {
 	return ctx.macros
@@ -697,12 +713,15 @@ func (ctx *RenderContext) EvaluateExpression(node Node) (interface{}, error) {
 		return n.value, nil
 
 	case *VariableNode:
-		// Check if it's a macro first
-		if macro, ok := ctx.GetMacro(n.name); ok {
-			return macro, nil
+		// A name that is bound as a variable (a macro parameter, a set, a loop
+		// variable, a context entry) is that variable, also when a macro of the
+		// same name is visible; only an unbound name can stand for a macro
+		if !ctx.hasVariable(n.name) {
+			if macro, ok := ctx.GetMacro(n.name); ok {
+				return macro, nil
+			}
 		}
 
-		// Otherwise, look up variable
 		return ctx.GetVariable(n.name)
 
 	case *GetAttrNode:
